@@ -63,6 +63,40 @@ pub struct VoiceSpec {
     pub log_gain: bool,
 }
 
+impl VoiceSpec {
+    /// load-only variation of the stream shapes (C04: "vector lengths", "stream sets"): the MSD stream gets a
+    /// vector length of 1..3 and a non-MSD stream beyond the spectrum may become MSD. PDFs are rebuilt in the
+    /// file layout `means (veclen*nwin) | variances (veclen*nwin) | [msd weight]`. Not for synthesis.
+    pub fn vary_shapes(&mut self, rng: &mut Rng) {
+        for (si, st) in self.streams.iter_mut().enumerate() {
+            if si == 0 { continue; }
+            let new_len = if st.is_msd { rng.range(1, 3) } else { st.veclen };
+            let new_msd = st.is_msd || rng.chance(0.4);
+            if new_len == st.veclen && new_msd == st.is_msd { continue; }
+            let nwin = st.windows.len();
+            for tree in st.model.pdfs.iter_mut() {
+                for pdf in tree.iter_mut() {
+                    let mut v: Vec<f32> = (0..new_len * nwin).map(|_| rng.uniform(-2.0, 6.0) as f32).collect();
+                    v.extend((0..new_len * nwin).map(|_| rng.log_uniform(0.001, 0.5) as f32));
+                    if new_msd { v.push(rng.unit() as f32); }
+                    *pdf = v;
+                }
+            }
+            if let Some(g) = st.gv.as_mut() {
+                for tree in g.pdfs.iter_mut() {
+                    for pdf in tree.iter_mut() {
+                        let mut v: Vec<f32> = (0..new_len).map(|_| rng.log_uniform(0.005, 0.3) as f32).collect();
+                        v.extend((0..new_len).map(|_| rng.log_uniform(0.0001, 0.01) as f32));
+                        *pdf = v;
+                    }
+                }
+            }
+            st.veclen = new_len;
+            st.is_msd = new_msd;
+        }
+    }
+}
+
 /// the bundled voice's questions (name, patterns), read from the file text by a plain scan
 pub fn question_pool() -> Vec<(String, Vec<String>)> {
     let bytes = std::fs::read(BUNDLED_VOICE).expect("bundled voice");
@@ -210,7 +244,8 @@ fn spectrum_pdf(rng: &mut Rng, veclen: usize, nwin: usize, stage: usize, log_gai
     } else {
         // gain, then increasing well-separated line spectral frequencies in (0, pi)
         let order = veclen - 1;
-        means.push(if log_gain { rng.uniform(-1.0, 1.5) } else { rng.uniform(0.3, 4.0) });
+        // linear gain: now and then a leaf at or below zero, as an undershooting trajectory would give
+        means.push(if log_gain { rng.uniform(-1.0, 1.5) } else if rng.chance(0.15) { rng.uniform(-0.5, 0.05) } else { rng.uniform(0.3, 4.0) });
         let min = std::f64::consts::PI / (2.0 * (order as f64 + 1.0));
         let slack = std::f64::consts::PI - min * (order as f64 + 1.0);
         let mut cuts: Vec<f64> = (0..order).map(|_| rng.unit()).collect();
